@@ -120,7 +120,7 @@ Step(en, do) == en /\ st' = do
 
 HelperEnabled ==
     \/ \E k \in DOMAIN st.iv :
-        \/ RelReserveEn(st, k) \/ FioAwaitInitEn(st, k) \/ FioShutdownEn(st, k) \/ FioShutdownDoneEn(st, k)
+        \/ RelReserveEn(st, k) \/ FioAwaitInitEn(st, k) \/ FioInitFailedEn(st, k) \/ FioShutdownEn(st, k) \/ FioShutdownDoneEn(st, k)
         \/ FioFastInvokeEn(st, k) \/ FiiStartEn(st, k) \/ FiiDefaultErrorEn(st, k) \/ FiiSendDoneEn(st, k)
         \/ RelAwaitEn(st, k) \/ RelAfterResetEn(st, k)
     \* ... and so are polls that have been released: the handler goroutine renders at once
@@ -146,6 +146,7 @@ OtherInternal ==
             \/ Step(MainBeginEn(st, k), MainBeginDo(st, k))
             \/ Step(RelReserveEn(st, k), RelReserveDo(st, k))
             \/ Step(FioAwaitInitEn(st, k), FioAwaitInitDo(st, k))
+            \/ Step(FioInitFailedEn(st, k), FioInitFailedDo(st, k))
             \/ Step(FioShutdownEn(st, k), FioShutdownDo(st, k))
             \/ Step(FioShutdownDoneEn(st, k), FioShutdownDoneDo(st, k))
             \/ Step(FioFastInvokeEn(st, k), FioFastInvokeDo(st, k))
